@@ -39,7 +39,7 @@ COMPONENTS = {
     "simulated": ["operation history (seeded)", "file object / output file in tmpfs scratch", "clock seen by zipfile/openpyxl (frozen)", "sys.argv/stdout/stderr of potable"],
     "stubbed": [],
 }
-EXPECTED_PROBES = ["view-of-a-view", "same-species-set-under-both-modes", "two-live-views-different-filters", "older-view-read-after-newer-created", "empty-include-set", "empty-exclude-set",
+EXPECTED_PROBES = ["failing-read-then-other-view", "view-of-a-view", "same-species-set-under-both-modes", "two-live-views-different-filters", "older-view-read-after-newer-created", "empty-include-set", "empty-exclude-set",
                    "unknown-label-in-set", "set-container", "tabulate-through-view", "base-read-after-view", "cli-include", "cli-exclude",
                    "filter-removes-all-entries", "zero-filled-species-after-filter"]
 
@@ -144,6 +144,10 @@ def gen_scenario(seed, tier="quick"):
         attrs += ["eam_embed", "eam_density", "eam_embed", "eam_density"]
     elif meta["kind"] == "fs":
         attrs += ["eam_embed", "eam_density_fs", "eam_embed", "eam_density_fs"]
+    else:
+        # reads that legitimately fail (the model has no such section): an exception raised half-way through a
+        # filtered read must not leave anything behind for the views read afterwards
+        attrs += ["eam_embed", "eam_density"]
     attrs += ["pair", "pair"]
     ops = []
     live = []
@@ -523,6 +527,7 @@ def run_job(job):
 def _probes(sc, ref, res, bump):
     live = {}
     order = 0
+    failing_read_seen = False
     for op, e in zip(sc["ops"], ref.get("ops", [])):
         if op["op"] == "cli":
             bump("probe:cli-" + op["mode"])
@@ -551,6 +556,11 @@ def _probes(sc, ref, res, bump):
         elif op["op"] == "drop":
             live.pop(op["name"], None)
         elif op["op"] in ("read", "tabulate"):
+            if op["op"] == "read" and op["on"] != "base" and not e.get("ok", True):
+                failing_read_seen = True
+            elif failing_read_seen and op["on"] != "base":
+                bump("probe:failing-read-then-other-view")
+                failing_read_seen = False
             if op["on"] == "base":
                 if live:
                     bump("probe:base-read-after-view")
